@@ -762,6 +762,10 @@ def gen_two_party(real, rng, cid, mtu=1500, steps=50, loss=0.15, dup=0.1, delay=
                     emit(attacker_recv(real, rng, run, e, t, None))
                 if disc and rng.random() < disc:
                     emit("disc %s cb=%d" % (e, 1 if e == "a" else 0))
+                    if rng.random() < 0.4:
+                        # an application that says goodbye from two places: the second call finds the connection already closing,
+                        # with the farewell datagram (and whatever is still waiting for an acknowledgement) not yet sent
+                        emit("disc %s cb=0" % e)
         if heal:
             # healed network: everything in flight and everything built from now on is delivered promptly
             for _ in range(int(4 * ot / max(si, 1)) + 40 if ot <= 2048 else 300):
